@@ -156,14 +156,14 @@ Fixpoint nbt_read (ps : list cstmt6) (st : nst) {struct ps} : dec (option A * N)
         | [KIf i c [KReturn r] []; KOther e], [], Some raw =>
             if seq i "" && seq c "!errors.Is(err, nbt.ErrEND)" && seq r "cr.n, err" && seq e "err = nil" then
               nbt_read t {| n_counting := n_counting st; n_through_cr := n_through_cr st; n_raw := None;
-                            n_caught := Some (catch_end eEND raw) |}
+                            n_caught := Some (nbt_catch_end eEND raw) |}
             else Crash eUnknown
         | _, _, _ => Crash eUnknown
         end
       else Crash eUnknown
   | KReturn r :: _ =>
       match n_caught st with
-      | Some c => if seq r "cr.n, nil" && n_through_cr st then counting c 0 else Crash eUnknown
+      | Some c => if seq r "cr.n, nil" && n_through_cr st then nbt_counting c 0 else Crash eUnknown
       | None => Crash eUnknown
       end
   | _ => Crash eUnknown
@@ -174,13 +174,13 @@ Proof. reflexivity. Qed.
 
 (* the count is the number of bytes consumed, on every input on which the field read succeeds - including
    the reads that an ErrEND ended early *)
-Lemma catch_end_robust (x : dec A) : robust x -> robust (catch_end eEND x).
-Proof. induction 1; cbn [catch_end]; try constructor; auto. destruct (e =? eEND)%N; constructor. Qed.
+Lemma nbt_catch_end_robust (x : dec A) : robust x -> robust (nbt_catch_end eEND x).
+Proof. induction 1; cbn [nbt_catch_end]; try constructor; auto. destruct (e =? eEND)%N; constructor. Qed.
 
 Lemma counting_consumes {B} (x : dec B) : robust x -> forall n0 s r n rest,
-  run_flat (counting x n0) s = FOk (r, n) rest -> exists c, s = c ++ rest /\ (n = n0 + lenN c)%N.
+  run_flat (nbt_counting x n0) s = FOk (r, n) rest -> exists c, s = c ++ rest /\ (n = n0 + lenN c)%N.
 Proof.
-  induction 1 as [a|e|w| |k Hk IH|m k Hk IH]; intros n0 s r n rest H; cbn [counting run_flat] in H; try discriminate.
+  induction 1 as [a|e|w| |k Hk IH|m k Hk IH]; intros n0 s r n rest H; cbn [nbt_counting run_flat] in H; try discriminate.
   - injection H as _ <- <-. exists []. split; [reflexivity|]. rewrite lenN_nil. lia.
   - destruct s as [|b s]; [discriminate|]. destruct (IH b _ _ _ _ _ H) as (c & -> & ->).
     exists (b :: c). split; [reflexivity|]. rewrite lenN_cons. lia.
@@ -194,20 +194,20 @@ Qed.
 Lemma nbtfield_count : robust d -> forall s r n rest,
   run_flat (r_nbtfield eEND d) s = FOk (r, n) rest -> exists c, s = c ++ rest /\ lenN c = n.
 Proof.
-  intros R s r n rest H. destruct (counting_consumes _ (catch_end_robust d R) 0%N s r n rest H) as (c & Hc & Hn).
+  intros R s r n rest H. destruct (counting_consumes _ (nbt_catch_end_robust d R) 0%N s r n rest H) as (c & Hc & Hn).
   exists c. split; [exact Hc|lia].
 Qed.
 
 (* what the wrapper does to the decoder's own outcome: success stays success (with the count of the bytes
    consumed), ErrEND becomes success with no value, any other error stays an error *)
 Lemma counting_run {B} (x : dec B) : robust x -> forall n0 s,
-  run_flat (counting x n0) s =
+  run_flat (nbt_counting x n0) s =
   match run_flat x s with
   | FOk a rest => FOk (a, (n0 + (lenN s - lenN rest))%N) rest
   | FErr e => FErr e | FPanic w => FPanic w | FFuel => FFuel
   end.
 Proof.
-  induction 1 as [a|e|w| |k Hk IH|m k Hk IH]; intros n0 s; cbn [counting run_flat]; try reflexivity.
+  induction 1 as [a|e|w| |k Hk IH|m k Hk IH]; intros n0 s; cbn [nbt_counting run_flat]; try reflexivity.
   - do 2 f_equal. lia.
   - destruct s as [|b s]; [reflexivity|]. rewrite IH.
     destruct (run_flat (k b) s) as [a rest| | |] eqn:E; try reflexivity.
@@ -216,13 +216,14 @@ Proof.
     destruct (run_flat (k (takeN m s)) (dropN m s)) as [a rest| | |] eqn:E; try reflexivity.
     destruct (robust_rest_suffix _ (Hk _) _ _ _ E) as [c Hc].
     assert (Ld : lenN (dropN m s) = (lenN s - m)%N) by (unfold lenN, dropN in *; rewrite skipn_length; lia).
-    rewrite Hc, lenN_app in Ld. do 2 f_equal. lia.
+    assert (Lr : (lenN (dropN m s) = lenN c + lenN rest)%N) by (rewrite Hc; apply lenN_app).
+    do 2 f_equal. lia.
 Qed.
 
-Lemma catch_end_ok (x : dec A) : robust x -> forall s a rest,
-  run_flat x s = FOk a rest -> run_flat (catch_end eEND x) s = FOk (Some a) rest.
+Lemma nbt_catch_end_ok (x : dec A) : robust x -> forall s a rest,
+  run_flat x s = FOk a rest -> run_flat (nbt_catch_end eEND x) s = FOk (Some a) rest.
 Proof.
-  induction 1 as [a0|e|w| |k Hk IH|m k Hk IH]; intros s a rest H; cbn [catch_end run_flat] in *; try discriminate.
+  induction 1 as [a0|e|w| |k Hk IH|m k Hk IH]; intros s a rest H; cbn [nbt_catch_end run_flat] in *; try discriminate.
   - injection H as <- <-. reflexivity.
   - destruct s as [|b s]; [discriminate|]. apply IH, H.
   - destruct (m <=? lenN s)%N; [|discriminate]. apply IH, H.
@@ -234,8 +235,8 @@ Lemma nbtfield_roundtrip : robust d -> forall img rest v,
   run_flat d (img ++ rest) = FOk v rest ->
   run_flat (r_nbtfield eEND d) (img ++ rest) = FOk (Some v, lenN img) rest.
 Proof.
-  intros R img rest v H. unfold r_nbtfield. rewrite counting_run by (apply catch_end_robust, R).
-  rewrite (catch_end_ok d R _ _ _ H). rewrite lenN_app. do 2 f_equal. lia.
+  intros R img rest v H. unfold r_nbtfield. rewrite counting_run by (apply nbt_catch_end_robust, R).
+  rewrite (nbt_catch_end_ok d R _ _ _ H). rewrite lenN_app. do 2 f_equal. lia.
 Qed.
 End NBTRead.
 
@@ -244,8 +245,8 @@ End NBTRead.
 Lemma nbtfield_end eEND A (k : N -> dec A) rest : k 0%N = Fail eEND ->
   run_flat (r_nbtfield eEND (ReadByte k)) (fst (w_nbtfield None) ++ rest) = FOk (None, 1%N) rest.
 Proof.
-  intros H. unfold r_nbtfield. cbn [w_nbtfield wbytes fst app catch_end counting run_flat]. rewrite H.
-  cbn [catch_end]. rewrite N.eqb_refl. reflexivity.
+  intros H. unfold r_nbtfield. cbn [w_nbtfield wbytes fst app nbt_catch_end nbt_counting run_flat]. rewrite H.
+  cbn [nbt_catch_end]. rewrite N.eqb_refl. reflexivity.
 Qed.
 
 (* countingWriter: the count is the number of bytes written *)
@@ -260,3 +261,193 @@ Proof.
 Qed.
 Lemma w_nbtfield_count enc : snd (w_nbtfield enc) = lenN (fst (w_nbtfield enc)).
 Proof. destruct enc; [apply w_counted_count|reflexivity]. Qed.
+
+(* ------------------------------------------------------------------ 4. Packet.Scan, Marshal, Builder *)
+From GoMC Require Import Proofs.C06_read.
+Section ScanSkel.
+Variable fuel : nat.
+
+(* for i, v := range fields { _, err := v.ReadFrom(r); if err != nil { return ... } }: the fields in order on ONE
+   reader, the counts dropped, the first error ends the scan *)
+Fixpoint scan_loop (fs : list (fty * fval)) (k : list fval -> dec (list fval)) : dec (list fval) :=
+  match fs with
+  | [] => k []
+  | (t, old) :: fs' => bind (read_f fuel t old) (fun x => let '(v, _) := x in scan_loop fs' (fun vs => k (v :: vs)))
+  end.
+
+Definition scan_body_ok (body : list cstmt6) : bool :=
+  match body with
+  | [KOther a; KIf i c [KReturn r] []] =>
+      seq a "_, err := v.ReadFrom(r)" && seq i "" && seq c "err != nil"
+      && seq r "fmt.Errorf(""scanning packet field[%d] error: %w"", i, err)"
+  | _ => false
+  end.
+
+Fixpoint scan_interp (ps : list cstmt6) (fs : list (fty * fval)) (vs : list fval) {struct ps} : dec (list fval) :=
+  match ps with
+  | KOther txt :: t => if seq txt "r := bytes.NewReader(p.Data)" then scan_interp t fs vs else Crash eUnknown
+  | KRange key val x body :: t =>
+      if seq key "i" && seq val "v" && seq x "fields" && scan_body_ok body
+      then scan_loop fs (fun vs' => scan_interp t [] vs') else Crash eUnknown
+  | KReturn r :: _ => if seq r "nil" then Ret vs else Crash eUnknown
+  | _ => Crash eUnknown
+  end.
+
+Lemma scan_loop_run fs : forall k s,
+  run_flat (scan_loop fs k) s =
+  match run_flat (scan fuel fs) s with
+  | FOk vs r => run_flat (k vs) r
+  | FErr e => FErr e | FPanic w => FPanic w | FFuel => FFuel
+  end.
+Proof.
+  induction fs as [|[t old] fs IH]; intros k s; [reflexivity|].
+  cbn [scan_loop scan]. rewrite !run_flat_bind by apply read_f_robust.
+  destruct (run_flat (read_f fuel t old) s) as [[v n] r| | |]; try reflexivity.
+  rewrite IH. rewrite run_flat_bind by apply scan_robust.
+  destruct (run_flat (scan fuel fs) r) as [vs r'| | |]; reflexivity.
+Qed.
+
+Lemma Packet_Scan_is_skel fs s :
+  run_flat (scan_interp (snd C06gen.skel_Packet_Scan) fs []) s = run_flat (scan fuel fs) s.
+Proof.
+  change (scan_interp (snd C06gen.skel_Packet_Scan) fs []) with (scan_loop fs (fun vs' => Ret vs')).
+  rewrite scan_loop_run. destruct (run_flat (scan fuel fs) s); reflexivity.
+Qed.
+End ScanSkel.
+
+(* Marshal: var pb Builder; for each field pb.WriteField(v) (= f.WriteTo(&p.buf), panic on error: none on a
+   bytes.Buffer); return pb.Packet(id) (= Data: p.buf.Bytes()) *)
+Definition writefield_ok (s : string * list cstmt6) : bool :=
+  match snd s with
+  | [KRange k v x [KOther a; KIf i c [KPanic e] []]] =>
+      seq k "_" && seq v "f" && seq x "fields" && seq a "_, err := f.WriteTo(&p.buf)" && seq i "" && seq c "err != nil" && seq e "err"
+  | _ => false
+  end.
+Definition builder_packet_ok (s : string * list cstmt6) : bool :=
+  match snd s with
+  | [KReturn r] => seq r "Packet{ID: id, Data: p.buf.Bytes()}"
+  | _ => false
+  end.
+Fixpoint marshal_interp (ps : list cstmt6) (fs : list (fty * fval)) (buf : list N) {struct ps} : option (list N) :=
+  match ps with
+  | KOther txt :: t => if seq txt "var pb Builder" then marshal_interp t fs [] else None
+  | KRange k v x [KOther a] :: t =>
+      if seq k "_" && seq v "v" && seq x "fields" && seq a "pb.WriteField(v)" && writefield_ok C06gen.skel_Builder_WriteField
+      then marshal_interp t fs (fold_left (fun b tv => b ++ fst (wr (fst tv) (snd tv))) fs buf) else None
+  | KReturn r :: _ => if seq r "pb.Packet(int32(id))" && builder_packet_ok C06gen.skel_Builder_Packet then Some buf else None
+  | _ => None
+  end.
+
+Lemma fold_app_concat (fs : list (fty * fval)) : forall buf,
+  fold_left (fun b tv => b ++ fst (wr (fst tv) (snd tv))) fs buf = buf ++ marshal fs.
+Proof.
+  unfold marshal. induction fs as [|f fs IH]; intros buf; cbn [fold_left map concat]; [rewrite app_nil_r; reflexivity|].
+  rewrite IH, <- app_assoc. reflexivity.
+Qed.
+Lemma Marshal_is_skel fs : marshal_interp (snd C06gen.skel_Marshal) fs [] = Some (marshal fs).
+Proof.
+  change (marshal_interp (snd C06gen.skel_Marshal) fs [])
+    with (Some (fold_left (fun b tv => b ++ fst (wr (fst tv) (snd tv))) fs [])).
+  rewrite fold_app_concat. reflexivity.
+Qed.
+
+(* ------------------------------------------------------------------ 5. Option / OptionDecoder / OptionEncoder, Opt, Ary.WriteTo *)
+(* Option.ReadFrom: the Boolean, `err != nil || !o.Has` -> return n1 (Val untouched), else Val's own ReadFrom *)
+Section OptionSkel.
+Variables (re : fval -> rd) (zero : fval) (old : fval).
+Definition oldval : fval := match old with VOpt _ x => x | _ => zero end.
+Record ost := { o_has : bool; o_n1 : N; o_val : fval; o_n2 : N }.
+Fixpoint option_read (ps : list cstmt6) (st : ost) {struct ps} : rd :=
+  match ps with
+  | KOther txt :: t =>
+      if seq txt "n1, err := o.Has.ReadFrom(r)" then
+        bind r_bool (fun x => let '(h, n1) := x in option_read t {| o_has := bof h; o_n1 := n1; o_val := o_val st; o_n2 := 0 |})
+      else if seq txt "n2, err := P(&o.Val).ReadFrom(r)" then
+        bind (re (o_val st)) (fun x => let '(v, n2) := x in option_read t {| o_has := o_has st; o_n1 := o_n1 st; o_val := v; o_n2 := n2 |})
+      else Crash eUnknown
+  | KIf init cond [KReturn r] [] :: t =>
+      if seq init "" && seq cond "err != nil || !o.Has" && seq r "n1, err" then
+        if o_has st then option_read t st else Ret (VOpt false (o_val st), o_n1 st)
+      else Crash eUnknown
+  | KReturn r :: _ => if seq r "n1 + n2, err" then Ret (VOpt true (o_val st), o_n1 st + o_n2 st) else Crash eUnknown
+  | _ => Crash eUnknown
+  end.
+Definition ost0 : ost := {| o_has := false; o_n1 := 0; o_val := oldval; o_n2 := 0 |}.
+Lemma Option_ReadFrom_is_skel : option_read (snd C06gen.skel_Option_ReadFrom) ost0 = r_option re zero old.
+Proof. reflexivity. Qed.
+Lemma OptionDecoder_ReadFrom_is_skel : option_read (snd C06gen.skel_OptionDecoder_ReadFrom) ost0 = r_option re zero old.
+Proof. reflexivity. Qed.
+End OptionSkel.
+
+(* Option.WriteTo / OptionEncoder.WriteTo *)
+Section OptionWSkel.
+Variables (we : fval -> wres) (has : bool) (x : fval).
+Definition option_write (ps : list cstmt6) : option wres :=
+  match ps with
+  | KOther a :: KIf init cond [KReturn r] [] :: KOther b :: [KReturn r2] =>
+      if seq a "n1, err := o.Has.WriteTo(w)" && seq init "" && seq cond "err != nil || !o.Has" && seq r "n1, err"
+         && seq b "n2, err := o.Val.WriteTo(w)" && seq r2 "n1 + n2, err"
+      then Some (if has then wcat (w_bool has) (we x) else w_bool has) else None
+  | _ => None
+  end.
+End OptionWSkel.
+Lemma Option_WriteTo_is_skel e h x :
+  option_write (wr e) h x (snd C06gen.skel_Option_WriteTo) = Some (wr (TOption e) (VOpt h x))
+  /\ option_write (wr e) h x (snd C06gen.skel_OptionEncoder_WriteTo) = Some (wr (TOption e) (VOpt h x)).
+Proof. destruct h; split; reflexivity. Qed.
+
+(* Opt: `if o.has() { switch field := o.Field.(type) { every case: return <field>.ReadFrom(r) / WriteTo(w); default: panic } }
+   return 0, nil` *)
+Definition opt_cases_ok (method : string) (cases : list (string * list cstmt6)) : bool :=
+  match cases with
+  | [(c1, [KReturn r1]); (c2, [KReturn r2]); (c3, [KReturn r3]); (c4, [KPanic _])] =>
+      seq r1 ("field." ++ method) && seq r2 ("field()." ++ method) && seq r3 ("field()." ++ method) && seq c4 "default"
+      && seq c3 "case func() Field"
+  | _ => false
+  end.
+Definition opt_interp {R} (method : string) (ps : list cstmt6) (has : bool) (call : R) (nothing : R) : option R :=
+  match ps with
+  | [KIf init cond [KSwitch i2 tag cases] []; KReturn r] =>
+      if seq init "" && seq cond "o.has()" && seq i2 "" && seq tag "field := o.Field.(type)" && opt_cases_ok method cases && seq r "0, nil"
+      then Some (if has then call else nothing) else None
+  | _ => None
+  end.
+Definition m_read : string := "ReadFrom(r)".
+Definition m_write : string := "WriteTo(w)".
+Lemma Opt_is_skel fuel has e old v :
+  opt_interp m_read (snd C06gen.skel_Opt_ReadFrom) has (read_f fuel e old) (Ret (old, 0%N)) = Some (read_f fuel (TOpt has e) old)
+  /\ opt_interp m_write (snd C06gen.skel_Opt_WriteTo) has (wr e v) ([], 0%N) = Some (wr (TOpt has e) v).
+Proof. destruct has; split; reflexivity. Qed.
+
+(* Ary.WriteTo: Len := LEN(array.Len()); the prefix type's own WriteTo; every element in order *)
+Section AryWSkel.
+Variables (l : lenk) (we : fval -> wres) (xs : list fval).
+Definition wloop_body_ok (body : list cstmt6) : bool :=
+  match body with
+  | [KOther a; KOther b; KOther c; KIf i d [KReturn e] []] =>
+      seq a "elem := array.Index(i)" && seq b "nn, err := elem.Interface().(FieldEncoder).WriteTo(w)"
+      && seq c "n += nn" && seq i "" && seq d "err != nil" && seq e "n, err"
+  | _ => false
+  end.
+Fixpoint ary_write (ps : list cstmt6) (len : Z) {struct ps} : option wres :=
+  match ps with
+  | KOther txt :: t =>
+      if seq txt "array := reflect.ValueOf(a.Ary)" then ary_write t len
+      else if seq txt "Len := LEN(array.Len())" then ary_write t (Z.of_N (lenN xs))
+      else None
+  | KFor init cond post body :: t =>
+      if seq init "" && seq cond "array.Kind() == reflect.Ptr" && seq post "" then
+        match body with [KOther a] => if seq a "array = array.Elem()" then ary_write t len else None | _ => None end
+      else if seq init "i := 0" && seq cond "i < array.Len()" && seq post "i++" && wloop_body_ok body then
+        match t with [KReturn r] => if seq r "n, nil" then Some (w_seq we xs) else None | _ => None end
+      else None
+  | KIf init cond [KReturn r] [KOther e] :: t =>
+      if seq init "nn, err := any(&Len).(FieldEncoder).WriteTo(w)" && seq cond "err != nil" && seq r "n, err" && seq e "n += nn" then
+        match ary_write t len with Some rest => Some (wcat (w_len l len) rest) | None => None end
+      else None
+  | _ => None
+  end.
+End AryWSkel.
+Lemma Ary_WriteTo_is_skel l e xs sp :
+  ary_write l (wr e) xs (snd C06gen.skel_Ary_WriteTo) 0%Z = Some (wr (TAry l e) (VList xs sp)).
+Proof. reflexivity. Qed.
